@@ -310,3 +310,37 @@ pub fn run(tier: Tier) -> i32 {
     rep.guard(st.short_island_wide.load(Ordering::Relaxed) > 0, "no width-5 window with an island shorter than the window");
     rep.finish()
 }
+
+/// Re-run one recorded case from its literal inputs.
+pub fn replay(v: &serde_json::Value) -> i32 {
+    let wins: Vec<Vec<f64>> = v["windows"].as_array().cloned().unwrap_or_default().iter().map(|w| w.as_array().cloned().unwrap_or_default().iter().filter_map(|x| x.as_f64()).collect()).collect();
+    let vlen = v["vector_length"].as_u64().unwrap_or(1) as usize;
+    let thr = v["threshold"].as_f64().unwrap_or(0.5);
+    let mut states: Vec<(Vec<(f64, f64)>, bool)> = Vec::new();
+    let mut durations = Vec::new();
+    let mut raw = Vec::new();
+    for s in v["states"].as_array().cloned().unwrap_or_default() {
+        let p: Vec<(f64, f64)> = s["params_mean_var"].as_array().cloned().unwrap_or_default().iter().map(|x| (x[0].as_f64().unwrap_or(0.0), x[1].as_f64().unwrap_or(1.0))).collect();
+        let msd = s["msd"].as_f64().unwrap_or(1.0);
+        states.push((p.clone(), msd > thr));
+        raw.push((p.iter().map(|(m, va)| MeanVari(*m, *va)).collect::<Vec<_>>(), msd));
+        durations.push(s["duration"].as_u64().unwrap_or(1) as usize);
+    }
+    let windows = Windows::new(wins.iter().map(|w| Window::new(w.clone())).collect());
+    let got = catch(|| MlpgAdjust::new(1.0, thr, ModelStream { vector_length: vlen, stream: StreamParameter::new(raw), gv: None, windows: &windows }).create(&durations));
+    let want = mlpg_reference(&states, &durations, &wins, vlen);
+    println!("dense reference: {:?}", want);
+    match got {
+        Err(p) => {
+            println!("MlpgAdjust::create panics: {}", p);
+            1
+        }
+        Ok(g) => {
+            println!("MlpgAdjust::create:  {:?}", g);
+            let scale = want.iter().flatten().filter(|x| **x != NODATA).fold(1.0f64, |a, b| a.max(b.abs()));
+            let ok = g.len() == want.len() && g.iter().zip(&want).all(|(a, b)| a.iter().zip(b).all(|(x, y)| if *y == NODATA { x.to_bits() == NODATA.to_bits() } else { (x - y).abs() <= 1e-9 * scale }));
+            println!("{}", if ok { "replay: holds" } else { "replay: VIOLATED" });
+            !ok as i32
+        }
+    }
+}
